@@ -903,6 +903,8 @@ where
     pub fn remove_range(&mut self, indices: impl RangeBounds<usize>) -> Result<()> {
         self.check_inner_initialized();
         self.possible_mut_borrow.set(false);
+        // The element the inner pointer refers to may be removed or moved, so it can't be kept around
+        self.inner_exclusive = None;
         let start = match indices.start_bound() {
             std::ops::Bound::Included(start) => *start,
             std::ops::Bound::Excluded(start) => start + 1,
@@ -998,6 +1000,8 @@ where
     pub fn clear(&mut self) -> Result<()> {
         self.check_inner_initialized();
         self.possible_mut_borrow.set(false);
+        // The element the inner pointer refers to is removed, so it can't be kept around
+        self.inner_exclusive = None;
         {
             let start_ptr = self
                 .offset_list
